@@ -173,6 +173,7 @@ type Entry struct {
 	Type      tikvrpc.CmdType
 	Req       interface{} // cloned request message
 	RegionID  uint64
+	Retry     bool        // the request carried Context.IsRetryRequest
 	Resp      interface{} // response message (nil if none)
 	Err       string      // transport error returned to the client
 	Delivered bool        // the store executed the request
@@ -438,7 +439,7 @@ func (n *Net) send(ctx context.Context, addr string, req *tikvrpc.Request, timeo
 	callID := n.callID
 	n.mu.Unlock()
 
-	e := &Entry{Client: n.id, Type: req.Type, Req: cloneMsg(req.Req), RegionID: req.Context.GetRegionId(), CallID: callID}
+	e := &Entry{Client: n.id, Type: req.Type, Req: cloneMsg(req.Req), RegionID: req.Context.GetRegionId(), Retry: req.Context.GetIsRetryRequest(), CallID: callID}
 	if dead {
 		e.Err, e.Injected = errKilled.Error(), "dead"
 		n.cl.Trace.add(e)
